@@ -3,9 +3,11 @@
 
 use cosmwasm_std::testing::{MockApi, MockQuerier};
 use cosmwasm_std::{
-    Addr, BlockInfo, ContractInfo, Deps, DepsMut, Empty, Env, MessageInfo, Order, QuerierWrapper,
-    Record, Storage, Timestamp, TransactionInfo,
+    Addr, Api, BlockInfo, CanonicalAddr, ContractInfo, Deps, DepsMut, Empty, Env, MessageInfo,
+    Order, QuerierWrapper, RecoverPubkeyError, Record, StdResult, Storage, Timestamp,
+    TransactionInfo, VerificationError,
 };
+use std::collections::HashMap;
 use std::cell::RefCell;
 use std::collections::BTreeMap;
 use std::ops::Bound;
@@ -60,6 +62,50 @@ impl Storage for MemStorage {
     }
     fn remove(&mut self, key: &[u8]) {
         self.data.remove(key);
+    }
+}
+
+/// MockApi with a memo of *successful* address validations. addr_validate is a pure function
+/// of its input, so the memo is semantically transparent; it only removes the bech32 cost that
+/// otherwise dominates monitored runs. Failures always go to the real MockApi.
+#[derive(Default)]
+pub struct CachedApi {
+    pub inner: MockApi,
+    memo: RefCell<HashMap<String, Addr>>,
+}
+
+impl Api for CachedApi {
+    fn addr_validate(&self, human: &str) -> StdResult<Addr> {
+        if let Some(a) = self.memo.borrow().get(human) {
+            return Ok(a.clone());
+        }
+        let a = self.inner.addr_validate(human)?;
+        let mut m = self.memo.borrow_mut();
+        if m.len() < 4096 {
+            m.insert(human.to_string(), a.clone());
+        }
+        Ok(a)
+    }
+    fn addr_canonicalize(&self, human: &str) -> StdResult<CanonicalAddr> {
+        self.inner.addr_canonicalize(human)
+    }
+    fn addr_humanize(&self, canonical: &CanonicalAddr) -> StdResult<Addr> {
+        self.inner.addr_humanize(canonical)
+    }
+    fn secp256k1_verify(&self, h: &[u8], s: &[u8], p: &[u8]) -> Result<bool, VerificationError> {
+        self.inner.secp256k1_verify(h, s, p)
+    }
+    fn secp256k1_recover_pubkey(&self, h: &[u8], s: &[u8], r: u8) -> Result<Vec<u8>, RecoverPubkeyError> {
+        self.inner.secp256k1_recover_pubkey(h, s, r)
+    }
+    fn ed25519_verify(&self, m: &[u8], s: &[u8], p: &[u8]) -> Result<bool, VerificationError> {
+        self.inner.ed25519_verify(m, s, p)
+    }
+    fn ed25519_batch_verify(&self, m: &[&[u8]], s: &[&[u8]], p: &[&[u8]]) -> Result<bool, VerificationError> {
+        self.inner.ed25519_batch_verify(m, s, p)
+    }
+    fn debug(&self, message: &str) {
+        self.inner.debug(message)
     }
 }
 
@@ -149,7 +195,7 @@ impl<T> Res<T> {
 
 pub struct World {
     pub store: MemStorage,
-    pub api: MockApi,
+    pub api: CachedApi,
     pub querier: MockQuerier,
     pub block: BlockInfo,
     pub contract: Addr,
@@ -164,7 +210,7 @@ impl World {
         install_panic_hook();
         World {
             store: MemStorage::default(),
-            api: MockApi::default(),
+            api: CachedApi::default(),
             querier: MockQuerier::default(),
             block: BlockInfo {
                 height,
